@@ -663,7 +663,7 @@ class HDF5DataFrame(DataFrame):
             pandas_df = df.to_pandas()
         """
         col_to_convert = list(self._columns.keys()) if col_filter is None else col_filter
-        if isinstance(col_to_convert, list):  # checking data length if multiple columns
+        if isinstance(col_to_convert, list) and len(col_to_convert) > 0:  # checking data length if multiple columns
             bench_length = len(self._columns[col_to_convert[0]].data)
             for field in col_to_convert:
                 if len(self._columns[field].data) != bench_length:
